@@ -54,8 +54,8 @@ def code_kind(code):
 class Recorder:
     """sys.setprofile callback: records every event of program frames, then forwards to the real tracer."""
 
-    def __init__(self, tracer, logger, prog_file, R, k, admit, ct, draws):
-        self.tracer, self.logger, self.prog_file, self.R, self.k, self.admit, self.ct = tracer, logger, prog_file, R, k, admit, ct
+    def __init__(self, tracer, logger, prog_files, R, k, admit, ct, draws):
+        self.tracer, self.logger, self.prog_files, self.R, self.k, self.admit, self.ct = tracer, logger, set(prog_files), R, k, admit, ct
         self.draws = draws
         self.frames = {}        # id(frame) -> (number, frame)
         self.codes = {}         # code -> number
@@ -88,17 +88,18 @@ class Recorder:
     def code_term(self, frame):
         from monkeytype.tracing import get_func
         code = frame.f_code
-        if code not in self.codes:
-            self.codes[code] = len(self.codes) + 1
-        if code not in self.resolved:
+        ck = (code.co_filename, code)       # code objects compare equal across files when their contents are identical
+        if ck not in self.codes:
+            self.codes[ck] = len(self.codes) + 1
+        if ck not in self.resolved:
             try:
-                self.resolved[code] = self.funcnum(get_func(frame))
+                self.resolved[ck] = self.funcnum(get_func(frame))
             except Exception as e:      # the real lookup raised; the tracer's own call will raise too (contained)
-                self.resolved[code] = None
+                self.resolved[ck] = None
                 self.errors.append(f"get_func raised {type(e).__name__}")
-        fn = self.resolved[code]
+        fn = self.resolved[ck]
         return "(Code %s %s %s %s %s)" % (
-            common.coq_N(self.codes[code]), common.coq_bool(code.co_name == "trace_types"),
+            common.coq_N(self.codes[ck]), common.coq_bool(code.co_name == "trace_types"),
             common.coq_bool(self.admit(code)), "None" if fn is None else f"(Some {common.coq_N(fn)})", code_kind(code))
 
     def ty(self, v):
@@ -107,15 +108,15 @@ class Recorder:
 
     def __call__(self, frame, event, arg):
         code = frame.f_code
-        if code.co_filename == self.prog_file:
+        if code.co_filename in self.prog_files:
             try:
                 self.record(frame, event, arg)
             except Exception as e:
                 self.errors.append(f"recorder: {type(e).__name__}: {e}")
-        self.logger.current = self.frames.get(id(frame), (None,))[0] if code.co_filename == self.prog_file else None
+        self.logger.current = self.frames.get(id(frame), (None,))[0] if code.co_filename in self.prog_files else None
         n0 = len(self.draws)
         self.tracer(frame, event, arg)
-        if code.co_filename == self.prog_file and event == "call" and len(self.draws) > n0:
+        if code.co_filename in self.prog_files and event == "call" and len(self.draws) > n0:
             # the tracer consulted the RNG for this event: attach the draw to the recorded event
             self.events[-1] = self.events[-1].replace("DRAW", str(self.draws[-1]))
         return self
@@ -167,6 +168,18 @@ def run_one(workdir, idx, rnd, mode, ct):
     mod = load_module(path, name)
     vg = ValGen(rnd, max_depth=2)
     mod.V[:] = [vg.value() for _ in range(nvals)]
+    # sometimes the same source exists a second time under another file name (a vendored copy): its code objects
+    # are EQUAL to the first module's, and its calls must still be attributed to its own functions
+    twin = None
+    paths = [path]
+    if rnd.random() < 0.15:
+        tname = name + "_twin"
+        tpath = os.path.join(workdir, tname + ".py")
+        with open(tpath, "w") as f:
+            f.write(src)
+        twin = load_module(tpath, tname)
+        twin.V[:] = [vg.value() for _ in range(nvals)]
+        paths.append(tpath)
     k = rnd.choice([0, 0, 1, 3])
     if mode == "c18":
         rate = rnd.choice([1, 2, 2, 3, 10, 100, None])
@@ -175,6 +188,7 @@ def run_one(workdir, idx, rnd, mode, ct):
     # code filter: admits program code only; rejects a random subset of its code objects, chosen per CODE OBJECT
     # (name + first line), so that two functions sharing a bare name (Base.m / Derived.m) can be decided differently
     all_codes = []
+    pathset = set(paths)
 
     def walk(co):
         for c in co.co_consts:
@@ -187,7 +201,7 @@ def run_one(workdir, idx, rnd, mode, ct):
         rejected = {c for c in all_codes if rnd.random() < 0.2}
 
     def admit(code):
-        return code.co_filename == path and (code.co_name, code.co_firstlineno) not in rejected
+        return code.co_filename in pathset and (code.co_name, code.co_firstlineno) not in rejected
     use_filter = rnd.random() < 0.8
     draws = []
     rng = random.Random(rnd.randrange(1 << 30))
@@ -198,8 +212,8 @@ def run_one(workdir, idx, rnd, mode, ct):
         draws.append(d)
         return d
     logger = ListLogger()
-    tracer = mt.CallTracer(logger, k, admit if use_filter else (lambda code: code.co_filename == path), rate)
-    rec = Recorder(tracer, logger, path, vrec.R, k, admit if use_filter else (lambda code: True), ct, draws)
+    tracer = mt.CallTracer(logger, k, admit if use_filter else (lambda code: code.co_filename in pathset), rate)
+    rec = Recorder(tracer, logger, paths, vrec.R, k, admit if use_filter else (lambda code: True), ct, draws)
     random.randrange = fake_randrange
     old = sys.getprofile()
     crashed = None
@@ -207,6 +221,8 @@ def run_one(workdir, idx, rnd, mode, ct):
     try:
         try:
             mod.main()
+            if twin is not None:
+                twin.main()
         except BaseException as e:       # the workload itself failed: not the tracer's business, but note it
             crashed = f"{type(e).__name__}: {e}"
     finally:
@@ -223,8 +239,8 @@ def run_one(workdir, idx, rnd, mode, ct):
         residue.append(common.coq_N(e[0] if e and e[1] is fr else 0))
     # ground truth of attribution: code -> the function object that really owns it
     truth = []
-    for code, num in rec.codes.items():
-        fn = vrec.R.funcs.get(code)
+    for ck, num in rec.codes.items():
+        fn = vrec.R.funcs.get(ck)
         truth.append(f"({common.coq_N(num)}, {common.coq_opt(common.coq_N(rec.funcnum(fn)) if fn is not None else None)})")
     # ground truth of entry values per frame (types of the values bound to the named parameters at entry)
     entries = []
@@ -238,9 +254,11 @@ def run_one(workdir, idx, rnd, mode, ct):
     term = (f"TCase {rate_t} {common.coq_list(events)} {common.coq_list(impl)} {common.coq_list(residue)} "
             f"{common.coq_list(truth)} {common.coq_list(entries)}")
     del sys.modules[name]
+    if twin is not None:
+        del sys.modules[name + "_twin"]
     stats = {"events": len(events), "frames": len(rec.frames), "logged": len(impl), "rate": rate, "k": k,
              "filter": use_filter, "rejected": sorted(f"{n}@{l}" for n, l in rejected), "crashed": crashed, "errors": rec.errors[:3],
-             "gens": src.count("yield"), "awaits": src.count("await Susp"), "residue": len(residue)}
+             "twin": twin is not None, "gens": src.count("yield"), "awaits": src.count("await Susp"), "residue": len(residue)}
     return {"term": term, "stats": stats, "src": src if idx < 2 else None, "prog": name}
 
 
